@@ -136,7 +136,24 @@ def f3_witness():
     return {"id": "corpus-f3", "nodes": [a, b], "ops": ops}
 
 
-CORPUS = [f3_witness()]
+def stale_compact_witness():
+    """a duplicated delta (k1@1, k2@2) delivered again after the owner deleted k1, compacted, and the observer
+    caught up with the compaction: must be discarded whole (seeded change C02-1: per-key version guard)"""
+    a, b = {"id": H("a"), "addr": H("10.0.0.1:7000")}, {"id": H("b"), "addr": H("10.0.0.2:7000")}
+    D = lambda i: {"op": "deliver", "i": i, "max": 1400}
+    S = {"op": "send", "a": 0, "b": 1, "max": 1400}
+    ops = [{"op": "upsert", "n": 1, "k": H("k1"), "v": H("1")}, {"op": "upsert", "n": 1, "k": H("k2"), "v": H("2")},
+           S, D(0), D(0), D(0), D(0),                       # a and b learn of each other
+           S, D(0),                                         # b replies delta k1,k2 + digest
+           {"op": "dup", "i": 0, "max": 1400},              # a applies a copy; the original stays in flight
+           {"op": "drop", "i": 1},
+           {"op": "delete", "n": 1, "k": H("k1")}, {"op": "compact", "n": 1, "th": 1},
+           S, D(1), D(1), {"op": "drop", "i": 1},           # a catches up with the compaction (k1 purged)
+           D(0)]                                            # the old delta arrives
+    return {"id": "corpus-stale-compact", "nodes": [a, b], "ops": ops}
+
+
+CORPUS = [f3_witness(), stale_compact_witness()]
 
 
 def run(ctx):
@@ -144,7 +161,7 @@ def run(ctx):
     quick = ctx["tier"] == "quick"
     wd = ctx["wd"]
     n = 150 if quick else 4000
-    cases = list(CORPUS) + [gen_world_case(rng, "g%d" % i, PROFILE_NET) for i in range(n)]
+    cases = list(CORPUS) + [gen_world_case(rng, "g%d" % i, PROFILE_NET) if i % 3 else gen_parked_case(rng, "p%d" % i) for i in range(n)]
     binary = build_harness("pkg/gossip", dirs=["gossip"])
     outs = run_world(binary, wd, cases)
     kf = {k["sig"]: k for k in known_findings() if k["property"] == ID and k["kind"] == "known"}
@@ -179,11 +196,14 @@ def run(ctx):
                            "replay_obj": {"broken": "corr:C02:gossip_h:world", "disagreement": d, "case": okc[d["case"]][0], "observed": okc[d["case"]][1]}})
     cuts = sum(1 for o in outs for ob in (o.get("obs") or []) for p in ob["sent"] if p["bytes"].startswith("0200") and len(p["bytes"]) // 2 > 45)
     crossing = sum(1 for c in cases if any(op["op"] == "compact" for op in c["ops"]))
+    st = [stale_stats(c, o) for c, o in okc]
     cov = {"evaluations": len(cases), "distinct_nontrivial": len({json.dumps(c["ops"]) for c in cases if any(op["op"] == "deliver" for op in c["ops"])}),
-           "rule": "random histories over 2-4 real clusterStates: local writes/deletes/compactions/leave, digest sends with random max packet size, deliver/duplicate/drop in any order, join/leave streams; non-trivial = delivers at least one packet; distinct by op list; corpus = F3 witness",
+           "rule": "random histories over 2-4 real clusterStates: local writes/deletes/compactions/leave, digest sends with random max packet size, deliver/duplicate/drop in any order, join/leave streams; non-trivial = delivers at least one packet; distinct by op list; every third history is a parked-packet history (whole exchanges whose delta replies are delivered as a copy and again later, after overwrites, deletes and compactions); corpus = F3 witness, stale-delta-after-compaction witness",
            "samples": [cases[1]["ops"][:10]],
            "correspondence": {"harness": "gossip_h world mode", "histories": len(okc), "ops": sum(len(c["ops"]) for c in cases), "distribution": op_mix(cases),
-                              "histories_with_compaction": crossing, "non_empty_delta_packets": cuts, "disagreements": len(dis), "seed": ctx["seed"]},
+                              "histories_with_compaction": crossing, "non_empty_delta_packets": cuts,
+                              "stale_entries_delivered": sum(x for x, _ in st), "stale_entries_for_purged_keys": sum(y for _, y in st),
+                              "histories_with_stale_entry_for_purged_key": sum(1 for _, y in st if y), "disagreements": len(dis), "seed": ctx["seed"]},
            "monitor": {"histories": len(cases), "failures": len(mon), "failures_known": len([1 for _, f in mon if f["sig"] in kf])}}
     return {"coverage": cov, "violations": violations, "known": known}
 
